@@ -331,6 +331,7 @@ def rnn_case():
       'keep_order': st.booleans(), 'time_major': st.booleans(),
       'use_lengths': st.booleans(), 'unroll': st.sampled_from([1, 2]),
       'bidir': st.booleans(), 'override': st.booleans(),
+      'initial_carry': st.booleans(), 'return_carry': st.booleans(),
       'seed': st.integers(0, 2**16)})
 
 
@@ -338,7 +339,8 @@ def rnn_case():
         quick_shards=16, thorough_shards=16, x64=True, shrink=False,
         rule='every cell type (LSTM, OptimizedLSTM, GRU, Simple, MGU, '
         'ConvLSTM) x reverse x keep_order x time_major x seq_lengths in [1,T] '
-        'x unroll x Bidirectional: nn.RNN outputs at valid time steps and the '
+        'x unroll x initial_carry given or default x return_carry x '
+        'Bidirectional: nn.RNN outputs at valid time steps and the '
         'returned final carry equal a Python loop over the cell (reversal '
         'within each sequence\'s valid length); perturbing inputs at padded '
         'steps changes neither valid outputs nor the final carry (bit-equal); '
@@ -361,10 +363,17 @@ def rnn_vs_loop(case, ctx):
                  reverse=case['reverse'], keep_order=case['keep_order']) \
       if case['override'] else {}
 
+  with sut('initialize_carry'):
+    c0 = cell.initialize_carry(KEY(1), x[:, 0].shape)
+  extra_kw = {}
+  if case.get('initial_carry'):
+    c0 = jax.tree_util.tree_map(lambda a: jnp.asarray(rnd(rng, a.shape)), c0)
+    extra_kw['initial_carry'] = c0
+
   def run(rnn, xx, variables):
     xin = jnp.asarray(np.swapaxes(xx, 0, 1) if case['time_major'] else xx)
     out = rnn.apply(variables, xin, seq_lengths=jnp.asarray(lens) if
-                    case['use_lengths'] else None, **call_kw)
+                    case['use_lengths'] else None, **call_kw, **extra_kw)
     carry, ys = out
     ys = np.asarray(ys)
     if case['time_major']:
@@ -384,8 +393,21 @@ def rnn_vs_loop(case, ctx):
     carry, ys = run(rnn, x, v)
   # reference: python loop per batch element
   cvars = {'params': v['params']['cell']}
-  with sut('cell loop'):
-    c0 = cell.initialize_carry(KEY(1), x[:, 0].shape)
+  if case.get('return_carry') is False:
+    # the default return_carry=False hands back the outputs alone
+    with sut('RNN(return_carry=False)'):
+      rnn_nc = nn.RNN(cell, time_major=case['time_major'],
+                      reverse=case['reverse'], keep_order=case['keep_order'],
+                      unroll=case['unroll'])
+      ys_only = rnn_nc.apply(v, xin0, seq_lengths=jnp.asarray(lens) if
+                             case['use_lengths'] else None, **extra_kw)
+    require(not isinstance(ys_only, tuple), 'return_carry=False returned a '
+            'tuple')
+    yo = np.asarray(ys_only)
+    yo = np.swapaxes(yo, 0, 1) if case['time_major'] else yo
+    vmask = np.arange(T)[None, :] < lens[:, None]
+    require(np.array_equal(yo[vmask], ys[vmask]), 'outputs with '
+            'return_carry=False differ from those with return_carry=True')
   ref_out = np.zeros_like(ys)
   final = []
   for bi in range(B):
@@ -452,6 +474,26 @@ def rnn_vs_loop(case, ctx):
     cat = np.concatenate([yf, yr], axis=-1)
     require(close(yb[valid], cat[valid]), 'Bidirectional != concat(forward, '
             'length-aware reversed backward)')
+    # return_carry (constructor or call time): the two final carries are
+    # those of the two RNNs run on their own, padding excluded
+    sl = jnp.asarray(lens) if case['use_lengths'] else None
+    with sut('Bidirectional(return_carry)'):
+      if case['override']:
+        (cf, cb), yb2 = bi.apply(vb, xin0, seq_lengths=sl, return_carry=True)
+      else:
+        bi_c = nn.Bidirectional(fwd, bwd, time_major=case['time_major'],
+                                return_carry=True)
+        (cf, cb), yb2 = bi_c.apply(vb, xin0, seq_lengths=sl)
+      cf_ref, _ = f_only.apply({'params': vb['params']['forward_rnn']}, xin0,
+                               seq_lengths=sl, return_carry=True)
+      cb_ref, _ = b_only.apply({'params': vb['params']['backward_rnn']}, xin0,
+                               seq_lengths=sl, return_carry=True)
+    require(close(cf, cf_ref), lambda: 'Bidirectional(return_carry=True): '
+            'forward final carry differs from the forward RNN run on its own '
+            f'(lengths={lens.tolist()})')
+    require(close(cb, cb_ref), lambda: 'Bidirectional(return_carry=True): '
+            'backward final carry differs from the backward RNN run on its '
+            f'own (lengths={lens.tolist()})')
   ctx.note(labels=[cellname, 'rev' if case['reverse'] else 'fwd',
                    'lens' if case['use_lengths'] else 'full',
                    'call-override' if case['override'] else 'attributes'],
